@@ -19,7 +19,7 @@ from .. import core, tlc, traceval
 BAD_KINDS = ["pyobject", "pyapply", "pynew", "pyname", "pymodule", "pytuple", "pycomplex", "pybytes", "pystr", "pyint", "pylist", "pydict", "pyunicode", "pylong", "pyfloat", "pybool", "pynone", "unregistered", "unregistered_dotted"]
 NAMED = ["pyobject", "pyapply", "pynew", "pyname", "pymodule", "unregistered_dotted"]
 TARGETS = ["sentinel", "canary_class", "os_system", "unimported", "plugin_class"]
-POSITIONS = ["pipeline_item", "lazy_arg", "lazy_nested", "lazyfn_nested", "eager_arg", "type_arg", "logging", "root", "mapkey", "section_value", "merge_value"]
+POSITIONS = ["pipeline_item", "lazy_arg", "lazy_nested", "lazyfn_nested", "eager_arg", "type_arg", "logging", "root", "mapkey", "section_value", "merge_value", "tagkey", "second_document"]
 INVARIANTS = ["OnlyRegistered", "BadIsRejected"]
 
 
@@ -112,6 +112,11 @@ def render(doc, n, marker):
             sections["__config_test"]["? %s " % y] = "1"
         elif p == "section_value":
             sections["__config_test"]["s%d" % j] = y
+        elif p == "tagkey":
+            # the bad tag sits on a KEY directly below a registered tag
+            sections["pipeline"].insert(0, "!VCtrl {? %s : 1}" % y if j % 2 == 0 else "!VEager {? %s : 1}" % y)
+        elif p == "second_document":
+            sections["_second"] = y
         elif p == "merge_value":
             sections["__config_test"]["m%d" % j] = "{<<: %s, b: 2}" % y
     if sections["logging"]:
@@ -123,6 +128,11 @@ def render(doc, n, marker):
     lines.append("pipeline:")
     for it in sections["pipeline"]:
         lines.append("  - " + it)
+    if sections.get("_second"):
+        # (a first document without any registered tag, so that nothing but the bad tag of
+        #  the second document decides the outcome)
+        lines = [l.replace("- !VCtrl {a: 1}", "- {__type__: vp.fx_plugins.VCtrl, a: 1}").replace("- !VPool", "- {__type__: vp.fx_plugins.VPool}") for l in lines]
+        lines += ["---", "extra: " + sections["_second"]]
     return "\n".join(lines) + "\n"
 
 
